@@ -111,7 +111,8 @@ CHECKS = {
                 "variable to its own negation are skipped as the property excludes them. After every operation every "
                 "replica is compared with a signed union-find (aliases, canonical_signed, canonical_variables, iteration); "
                 "which names are looked up after an operation, and in which order, is part of the plan (every name sorted / "
-                "every name in a seeded order / 0-3 chosen names, plus a full pass in a seeded order at the end), because a "
+                "every name in a seeded order / 0-3 chosen names - and then also whether canonical_variables / iteration are "
+                "read and on which replicas anything is looked at - plus a full pass in a seeded order at the end), because a "
                 "look-up may itself change the object. distinct_nontrivial = distinct (signed partition before, operation) "
                 "pairs with a non-trivial class before or after.",
         "assumptions": ["sampling, not exhaustive exploration up to state equivalence (that would be model checking); the "
